@@ -159,7 +159,7 @@ func (e *Env) inOld() *Env {
 	n.heap = e.old
 	n.epoch = e.oldEpoch
 	n.now = e.oldNow
-	n.useCells = false
+	// locals keep their current value inside old(...): only the heap is the old one
 	return &n
 }
 
